@@ -159,6 +159,7 @@ Inductive hstep :=
 | HSet (p : project) (c : config)
 | HDelete (f : fname)
 | HDropCache
+| HCorrupt (f : fname)     (* a write that failed after truncating the file leaves an empty / partial file behind *)
 | HRun (w : sched) (flag : bool) (fault : option nat).
 
 Record hobs := { o_result : cresult; o_missing : list fname; o_different : list fname;
@@ -186,6 +187,11 @@ Fixpoint trace (presence : bool) (sg : cstate * option cgen) (h : list hstep) : 
       trace presence (step_c presence (fst sg) (Delete _ _ _ _ f), snd sg) h'
   | HDropCache :: h' =>
       trace presence (step_c presence (fst sg) (DropCache _ _ _ _), None) h'
+  | HCorrupt f :: h' =>
+      let st := fst sg in
+      trace presence ({| s_src := s_src st; s_cfg := s_cfg st;
+                         s_out := upd fname tree fname_eqb (s_out st) f (Some (TN [TN []]));
+                         s_cache := s_cache st |}, snd sg) h'
   | HRun w flag fault :: h' =>
       let (o, sg') := run_obs presence sg w flag fault in o :: trace presence sg' h'
   end.
